@@ -24,13 +24,16 @@
 #include <signal.h>
 #include <sys/wait.h>
 #include <sanitizer/lsan_interface.h>
+#include <sys/resource.h>
 
 #define MAXC 40
 #define FDBASE 200
+#define LISTEN_FD 190      /* read end of a pipe standing in for the listening socket */
+#define LISTEN_WR 191
 #define MAXF 16
 
 typedef struct {
-  rfbClientPtr cl; int used, freed, memfreed, nnew, ngone, nclose, sfd, pfd, peer_open, nwr; vs_buf rx;
+  rfbClientPtr cl; int used, freed, memfreed, nnew, ngone, nclose, sfd, pfd, peer_open, nwr, appfd; vs_buf rx;
 } conn_t;
 
 static conn_t C[MAXC];
@@ -46,12 +49,17 @@ static int cfg_w, cfg_h, cfg_ft;
 static jmp_buf hang_jmp;
 static int in_lib;
 static int lib_fds[64], nlib_fds;
+/* connections waiting on the listening descriptor: decision of newClientHook, bytes already sent, peer closed */
+typedef struct { int decision; int closed; int npre; unsigned char pre[64]; } pend_t;
+static pend_t pend[MAXC]; static int npend, pend_head;
+static int g_devnull = -1, g_lost;
 
 ssize_t __real_read(int, void *, size_t);
 ssize_t __real_write(int, const void *, size_t);
 ssize_t __real_recv(int, void *, size_t, int);
 int __real_select(int, fd_set *, fd_set *, fd_set *, struct timeval *);
 int __real_close(int);
+int __real_accept(int, struct sockaddr *, socklen_t *);
 int __real_open(const char *, int, ...);
 int __real_pthread_mutex_lock(pthread_mutex_t *);
 int __real_pthread_mutex_unlock(pthread_mutex_t *);
@@ -146,6 +154,37 @@ int __wrap_close(int fd) {
   return __real_close(fd);
 }
 
+static int make_conn(int closed, const unsigned char *pre, int npre) {
+  int sv[2], k; conn_t *c;
+  if (nconn >= MAXC) return -1;
+  socketpair(AF_UNIX, SOCK_STREAM, 0, sv);
+  k = nconn++; c = &C[k]; memset(c, 0, sizeof *c);
+  c->sfd = FDBASE + 2 * k; c->pfd = FDBASE + 2 * k + 1;
+  dup2(sv[0], c->sfd); dup2(sv[1], c->pfd); __real_close(sv[0]); __real_close(sv[1]);
+  fcntl(c->pfd, F_SETFL, fcntl(c->pfd, F_GETFL) | O_NONBLOCK);
+  { int sz = 4 << 20; setsockopt(c->sfd, SOL_SOCKET, SO_SNDBUF, &sz, sizeof sz);
+    setsockopt(c->pfd, SOL_SOCKET, SO_RCVBUF, &sz, sizeof sz); }
+  c->used = 1; c->peer_open = 1;
+  if (closed) { __real_close(c->pfd); c->peer_open = 0; }
+  else if (npre > 0) __real_write(c->pfd, pre, npre);
+  return k;
+}
+
+/* accept() on the stand-in listening descriptor hands out the next waiting connection */
+int __wrap_accept(int fd, struct sockaddr *a, socklen_t *l) {
+  if (in_lib && fd == LISTEN_FD) {
+    char b; int k; pend_t *p;
+    if (pend_head >= npend) { errno = EAGAIN; return -1; }
+    __real_read(LISTEN_FD, &b, 1);
+    p = &pend[pend_head++];
+    k = make_conn(p->closed, p->pre, p->npre);
+    if (k < 0) { errno = EMFILE; return -1; }
+    next_decision = p->decision;
+    return C[k].sfd;
+  }
+  return __real_accept(fd, a, l);
+}
+
 int __wrap_open(const char *path, int flags, int mode) {
   int fd = __real_open(path, flags, mode);
   if (in_lib && fd >= 0 && nlib_fds < 64) lib_fds[nlib_fds++] = fd;
@@ -190,7 +229,12 @@ static int conn_of_cl(rfbClientPtr cl) {
 }
 static void gone_hook(rfbClientPtr cl) {
   int k = conn_of_cl(cl);
-  if (k >= 0) { C[k].ngone++; ev("G", k); }
+  if (k >= 0) {
+    C[k].ngone++; ev("G", k);
+    /* the application opens something inside the hook and gets the descriptor number the connection
+       just gave back: a second close() of that number by the library would destroy it */
+    if (!C[k].appfd && g_devnull >= 0 && fcntl(C[k].sfd, F_GETFD) == -1) { dup2(g_devnull, C[k].sfd); C[k].appfd = 1; }
+  }
 }
 static enum rfbNewClientAction new_hook(rfbClientPtr cl) {
   int k = nconn - 1;      /* the connection being accepted */
@@ -204,7 +248,7 @@ static void kbd_hook(rfbBool down, rfbKeySym key, rfbClientPtr cl) {
   if (key == 0xC105E) rfbCloseClient(cl);
 }
 static void ptr_hook(int mask, int x, int y, rfbClientPtr cl) {
-  if (y == 7 && x == 7 && mask == 0x55) rfbCloseClient(cl);
+  if (mask == 0x55) rfbCloseClient(cl);   /* coordinates arrive scaled (ScaleX/ScaleY): not part of the decision */
 }
 static void cut_hook(char *str, int len, rfbClientPtr cl) {
   if (len > 0 && str[0] == 'X') rfbCloseClient(cl);
@@ -241,6 +285,7 @@ static void drain_all(void) {
   }
 }
 static int fd_is_open(int fd) { return fcntl(fd, F_GETFD) != -1; }
+static int sock_open(conn_t *c) { return !c->appfd && fd_is_open(c->sfd); }
 
 static const char *resbits(rfbClientPtr cl, char *b) {
   int i, zs = 0;
@@ -248,7 +293,7 @@ static const char *resbits(rfbClientPtr cl, char *b) {
   sprintf(b, "%s%s%s%s%s%s%s%s",
           cl->compStreamInited ? "Z" : "", cl->beforeEncBuf ? "B" : "", cl->afterEncBuf ? "A" : "",
           cl->zrleData ? "R" : "", cl->translateLookupTable ? "T" : "", zs ? "S" : "",
-          cl->fileTransfer.fd != -1 ? "F" : "", cl->scaledScreen != cl->screen ? "C" : "");
+          cl->fileTransfer.fd != -1 ? "F" : "", "");
   return b;
 }
 
@@ -260,22 +305,27 @@ static void observe(const char *op) {
   if (hung) { printf(" HUNG\n"); return; }
   if (S && !cleaned) {
     int p = S->pointerClient ? conn_of_cl(S->pointerClient) : -1;
-    printf(" ref=%d max=%d ptr=%d", S->scaledScreenRefCount, S->maxFd, p);
-  } else printf(" ref=- max=- ptr=-");
+    rfbScreenInfoPtr sc; int first = 1;
+    printf(" ref=%d max=%d ptr=%d sc=[", S->scaledScreenRefCount, S->maxFd, p);
+    for (sc = S->scaledScreenNext; sc; sc = sc->scaledScreenNext) { printf(first ? "%dx%d:%d" : ";%dx%d:%d", sc->width, sc->height, sc->scaledScreenRefCount); first = 0; }
+    printf("]");
+  } else printf(" ref=- max=- ptr=- sc=-");
   for (k = 0; k < nconn; k++) {
     conn_t *c = &C[k];
     if (c->freed || !c->cl) {
-      printf(" | %d:freed,n%d,g%d,x%d,w%d,fd%d", k, c->nnew, c->ngone, c->nclose, c->nwr, fd_is_open(c->sfd));
+      printf(" | %d:freed,n%d,g%d,x%d,w%d,fd%d", k, c->nnew, c->ngone, c->nclose, c->nwr, sock_open(c));
     } else if (cleaned) {
-      printf(" | %d:lost,n%d,g%d,x%d,w%d,fd%d", k, c->nnew, c->ngone, c->nclose, c->nwr, fd_is_open(c->sfd));
+      printf(" | %d:lost,n%d,g%d,x%d,w%d,fd%d", k, c->nnew, c->ngone, c->nclose, c->nwr, sock_open(c));
     } else {
       rfbClientPtr cl = c->cl; rfbClientPtr it; int inlist = 0;
       for (it = S->clientHead; it; it = it->next) if (it == cl) inlist = 1;
-      printf(" | %d:s%d,%s,h%d,n%d,g%d,x%d,w%d,L%d,F%d,q%d,m%d,e%d,r%s,fd%d", k, (int)cl->state,
+      char zb[32];
+      if (cl->scaledScreen != cl->screen) sprintf(zb, "%dx%d", cl->scaledScreen->width, cl->scaledScreen->height); else strcpy(zb, "-");
+      printf(" | %d:s%d,%s,h%d,n%d,g%d,x%d,w%d,L%d,F%d,q%d,m%d,e%d,r%s,z%s,fd%d", k, (int)cl->state,
              cl->sock == -1 ? "c" : "o", cl->onHold ? 1 : 0, c->nnew, c->ngone, c->nclose, c->nwr, inlist,
              FD_ISSET(c->sfd, &S->allFds) ? 1 : 0, sraRgnEmpty(cl->requestedRegion) ? 0 : 1,
-             sraRgnEmpty(cl->modifiedRegion) ? 0 : 1, (int)cl->preferredEncoding, resbits(cl, rb),
-             fd_is_open(c->sfd));
+             sraRgnEmpty(cl->modifiedRegion) ? 0 : 1, (int)cl->preferredEncoding, resbits(cl, rb), zb,
+             sock_open(c));
     }
   }
   if (S && !cleaned) {            /* client iteration contents (public iterator: open clients only) */
@@ -302,6 +352,10 @@ static void new_screen(int w, int h, int auth, int always, int never, int dontdi
   if (xvp) S->xvpHook = xvp_hook;
   if (ft) { S->permitFileTransfer = TRUE; S->getFileTransferPermission = ftperm_hook; }
   rfbInitServer(S);
+  { int pp[2]; pipe(pp); dup2(pp[0], LISTEN_FD); dup2(pp[1], LISTEN_WR); __real_close(pp[0]); __real_close(pp[1]);
+    fcntl(LISTEN_FD, F_SETFL, fcntl(LISTEN_FD, F_GETFL) | O_NONBLOCK);
+    S->listenSock = LISTEN_FD; FD_SET(LISTEN_FD, &S->allFds); if (LISTEN_FD > S->maxFd) S->maxFd = LISTEN_FD; }
+  if (g_devnull < 0) g_devnull = __real_open("/dev/null", O_RDONLY, 0);
   cfg_w = w; cfg_h = h; cfg_ft = ft;
 }
 
@@ -313,6 +367,9 @@ static void reset_case(void) {
     free(C[k].rx.p);
   }
   for (i = 0; i < nlib_fds; i++) if (lib_fds[i] >= 0 && fd_is_open(lib_fds[i])) __real_close(lib_fds[i]);
+  if (fd_is_open(LISTEN_FD)) __real_close(LISTEN_FD);
+  if (fd_is_open(LISTEN_WR)) __real_close(LISTEN_WR);
+  npend = 0; pend_head = 0;
   memset(C, 0, sizeof C); memset(fault_hit, 0, sizeof fault_hit);
   nconn = 0; S = NULL; cleaned = 0; hung = 0; g_ioc = 0; g_bad = 0; g_busy = 0; nfault = 0; force_to_fd = -1;
   evlog[0] = 0; nheld = 0; nlib_fds = 0;
@@ -333,21 +390,21 @@ static void do_op(char *line) {
   } else if (!S || cleaned) {
     if (strcmp(op, "end") != 0) { observe(op); return; }
   } else if (!strcmp(op, "accept")) {
-    int sv[2]; conn_t *c; rfbClientPtr cl;
-    if (nconn >= MAXC) { observe("accept-overflow"); return; }
-    socketpair(AF_UNIX, SOCK_STREAM, 0, sv);
-    k = nconn++; c = &C[k]; memset(c, 0, sizeof *c);
-    c->sfd = FDBASE + 2 * k; c->pfd = FDBASE + 2 * k + 1;
-    dup2(sv[0], c->sfd); dup2(sv[1], c->pfd); __real_close(sv[0]); __real_close(sv[1]);
-    fcntl(c->pfd, F_SETFL, fcntl(c->pfd, F_GETFL) | O_NONBLOCK);
-    { int sz = 4 << 20; setsockopt(c->sfd, SOL_SOCKET, SO_SNDBUF, &sz, sizeof sz);
-      setsockopt(c->pfd, SOL_SOCKET, SO_RCVBUF, &sz, sizeof sz); }
-    c->used = 1; c->peer_open = 1;
-    if (!strcmp(a2, "closed")) { __real_close(c->pfd); c->peer_open = 0; }
-    else if (a2[0]) { static unsigned char b[35000]; int n = unhex(a2, b, sizeof b); __real_write(c->pfd, b, n); }
+    conn_t *c; rfbClientPtr cl; static unsigned char b[64]; int n = 0, closed = !strcmp(a2, "closed");
+    if (!closed && a2[0]) n = unhex(a2, b, sizeof b);
+    k = make_conn(closed, b, n);
+    if (k < 0) { observe("accept-overflow"); return; }
+    c = &C[k];
     next_decision = a1[0];
     LIB(cl = rfbNewClient(S, c->sfd));
     if (!cl) { c->freed = 1; c->cl = NULL; } else c->cl = cl;
+  } else if (!strcmp(op, "laccept")) {
+    if (npend < MAXC && fd_is_open(LISTEN_WR)) {
+      pend_t *p = &pend[npend++];
+      p->decision = a1[0]; p->closed = !strcmp(a2, "closed");
+      p->npre = (!p->closed && a2[0]) ? unhex(a2, p->pre, sizeof p->pre) : 0;
+      __real_write(LISTEN_WR, "c", 1);
+    }
   } else if (!strcmp(op, "in")) {
     k = atoi(a1);
     if (k < nconn && C[k].peer_open) { static unsigned char b[35000]; int n = unhex(a2, b, sizeof b); __real_write(C[k].pfd, b, n); }
@@ -358,16 +415,16 @@ static void do_op(char *line) {
     LIB(rfbProcessEvents(S, 0));
   } else if (!strcmp(op, "appclose")) {
     k = atoi(a1);
-    if (k < nconn && !C[k].freed) LIB(rfbCloseClient(C[k].cl));
+    if (k < nconn && !C[k].freed && C[k].cl) LIB(rfbCloseClient(C[k].cl));
   } else if (!strcmp(op, "start")) {
     k = atoi(a1);
-    if (k < nconn && !C[k].freed) LIB(rfbStartOnHoldClient(C[k].cl));
+    if (k < nconn && !C[k].freed && C[k].cl) LIB(rfbStartOnHoldClient(C[k].cl));
   } else if (!strcmp(op, "refuse")) {
     k = atoi(a1);
-    if (k < nconn && !C[k].freed) LIB(rfbRefuseOnHoldClient(C[k].cl));
+    if (k < nconn && !C[k].freed && C[k].cl) LIB(rfbRefuseOnHoldClient(C[k].cl));
   } else if (!strcmp(op, "appxvp")) {
     k = atoi(a1);
-    if (k < nconn && !C[k].freed) LIB(rfbSendXvp(C[k].cl, 1, rfbXvp_Fail));
+    if (k < nconn && !C[k].freed && C[k].cl) LIB(rfbSendXvp(C[k].cl, 1, rfbXvp_Fail));
   } else if (!strcmp(op, "mark")) {
     LIB(rfbMarkRectAsModified(S, 0, 0, cfg_w, cfg_h));
   } else if (!strcmp(op, "bell")) {
@@ -396,11 +453,13 @@ static void do_op(char *line) {
       for (j = 0; j < C[k].rx.n; j++) printf("%02x", C[k].rx.p[j]);
       printf("\n");
     }
+    { int lost = 0; for (k = 0; k < nconn; k++) if (C[k].used && C[k].appfd && !fd_is_open(C[k].sfd)) lost++;
+      g_lost = lost; }
     { int was_hung = hung, busy = g_busy;
       reset_case();
       leak = __lsan_do_recoverable_leak_check();
       printf("#leak %d hung=%d\n", was_hung ? -1 : (leak ? 1 : 0), was_hung);
-      printf("fin filefds=%d busy=%d\n", nfl, busy);
+      printf("fin filefds=%d busy=%d appfds_lost=%d\n", nfl, busy, g_lost);
     }
     return;
   }
@@ -440,6 +499,7 @@ int main(void) {
   char **lines = NULL; int n = 0, cap = 0, i;
   vs_quiet();
   signal(SIGPIPE, SIG_IGN);
+  { struct rlimit rl = {1024, 1024}; setrlimit(RLIMIT_NOFILE, &rl); }   /* rfbProcessNewConnection probes every descriptor number */
   g_trace = getenv("VDRV_TRACE") != NULL;
   setvbuf(stdout, NULL, _IOFBF, 1 << 16);
   for (;;) {
